@@ -291,10 +291,39 @@ def _bool_switches(body, call_block):
     return out
 
 
-def slot_tests(body, slot, vname):
+def slot_predicate(crate, hb, slot, vname):
+    """is `hb` a method of the visitor that only asks its error slot (`fn is_over(&self) -> bool { self.outcome.is_err() }`)?
+    -> True if a true result means `an error occurred`, False for the opposite, None if it is something else"""
+    if hb is None or hb.raw["arg_count"] != 1 or hb.local_ty(0) != "bool" or vname not in (hb.local_ty(1) or ""):
+        return None
+    cs = [t for blk, t in hb.calls() if not hb.is_cleanup(blk)]
+    if len(cs) != 1 or not fn_matches(cs[0], r"option::Option::<T>::(is_some|is_none)$", r"result::Result::<T, E>::(is_ok|is_err)$") or not cs[0]["args"]:
+        return None
+    l = op_local(cs[0]["args"][0])
+    if not any(i != "term" and d["rv"]["k"] == "ref" and slot in d["rv"]["pl"]["p"] for b2, i, d in (M.def_sites(hb, l) if l is not None else [])):
+        return None
+    call, pos = M.flag_polarity(hb, 0)
+    if call is not cs[0]:
+        return None
+    says_error = fn_matches(cs[0], r"is_some$", r"is_err$")
+    return says_error if pos else not says_error
+
+
+def slot_tests(body, slot, vname, crate=None):
     """tests of the visitor's error slot in `body`: [(clean_target, error_target)] - through is_some/is_none/is_ok/is_err
-    on the field, or through a match on its discriminant (0 = None / Ok(()) = no error so far)"""
+    on the field, through a method of the visitor that only asks that, or through a match on its discriminant
+    (0 = None / Ok(()) = no error so far)"""
     out = []
+    if crate is not None:
+        for blk, t in body.calls():
+            if body.is_cleanup(blk) or not (t.get("dst_ty") == "bool"):
+                continue
+            for hb in crate.call_targets(body, t, ()):
+                se = slot_predicate(crate, hb, slot, vname)
+                if se is None:
+                    continue
+                for f_t, t_t in _bool_switches(body, blk):
+                    out.append((f_t, t_t) if se else (t_t, f_t))
 
     def is_slot(pl):
         return pl is not None and slot in pl["p"] and vname in body.local_ty(pl["l"])
@@ -811,7 +840,7 @@ def walk_rule(crate, prop):
     # every path entry -> return passes: already-seen edge, a `?` break edge, or the visit call
     slot_writes = {bb for bb in range(er.n) if not er.is_cleanup(bb) for st in er.stmts(bb)
                    if st["k"] == "assign" and slot in st["dst"]["p"] and vty.split("::")[-1] in er.local_ty(st["dst"]["l"])}
-    slot_err_edges = {e_t for _, e_t in slot_tests(er, slot, vname) if e_t is not None}
+    slot_err_edges = {e_t for _, e_t in slot_tests(er, slot, vname, crate) if e_t is not None}
     through = already_ts | {e["brk"] for e in try_edges(er) if e["brk"] is not None} | {b for b, _ in c_vis} | M.error_blocks(er) | slot_writes | slot_err_edges
     ok = er.all_paths_pass(0, through, er.returns())
     r.inst(fn=er.path, check="all non-error returns pass visit_dependencies", ok=ok)
@@ -848,12 +877,18 @@ def walk_rule(crate, prop):
     rec = has_call(vis, rec_rx)
     direct = has_call(vis, r"^export::export_(into|to)$")
     r.inst(edge="Visit::visit -> export_recursive", present=bool(rec))
+    if not rec and not direct and any(kind == "fn" and isinstance(v, dict) and "recursive_export" in (v.get("path") or "") for kind, v in crate.address_taken(vis)):
+        # the visitor collects what is to be done (function pointers on a work list) instead of doing it: the clauses about
+        # the recursion do not describe this walk
+        r.inst(visitor=vis.path, verdict="undecided: the visitor schedules steps instead of recursing")
+        r.fail(prop, "anchor-missing recursive walk shape", "%s does not recurse; it takes the address of functions of the module (a work list)" % vis.path, vis.file(), vis.line())
+        return r
     if not rec:
         r.fail(prop, "edge-missing Visit::visit -> export_recursive", "the visitor does not recurse: only direct dependencies would be exported", vis.file(), vis.line())
     if direct:
         r.fail(prop, "visitor-exports-directly Visit::visit", "visitor calls export_into/export_to directly (transitive dependencies lost)", *_loc(vis, direct[0][0]))
     is_some = []
-    vtests = slot_tests(vis, slot, vname)
+    vtests = slot_tests(vis, slot, vname, crate)
     is_none = [(b, t) for b, t in vis.calls() if fn_matches(t, r"option::Option::<T>::is_none$") and
                any(o["kind"] == "call" and fn_matches(o["t"], r"TS::output_path$") for o in origins(vis, op_local(t["args"][0])))]
     has_path = [(b, t) for b, t in vis.calls() if fn_matches(t, r"option::Option::<T>::is_some$") and
@@ -1456,6 +1491,9 @@ def visitor_predicates_rule(crate, prop, rule="C11.R12"):
                 if fn_matches(t, r"Result::<T, E>::(is_ok|is_err)$") and "ExportError" in (t.get("arg_tys") or [""])[0]:
                     continue              # the error state kept as a Result: the same question as `error.is_some()`
                 if not fn_matches(t, *ALLOWED):
+                    _, _v, _slot = walker_roles(crate)
+                    if _slot and any(slot_predicate(crate, hb, _slot, _vis_type(_v).split("::")[-1]) is not None for hb in crate.call_targets(body, t, ())):
+                        continue          # a method of the visitor that only asks its error slot
                     extra.append((t["fn"]["path"], M.user_span(t["span"])))
         r.inst(visitor=b.path, other_calls=sorted({p for p, _ in extra}))
         if extra or closures:
